@@ -141,6 +141,10 @@ FILES = {
     "dir.cnf": ("directory", None, DIR), "blankline.dimacs": ("valid", "simple", "p edge 3 2\ne 1 2\n\ne 2 3\n"),
     "missing": ("missing", None, MISSING), "missing.gml": ("missing", None, MISSING), "missing.cnf": ("missing", None, MISSING),
     "missing.kthlist": ("missing", None, MISSING),
+    # names that mean something to str.format / %-formatting / a shell
+    "net{v2}.kthlist": ("valid", "simple", KTH_SIMPLE), "K{}.gml": ("valid", "simple", GML_SIMPLE), "B{left}.matrix": ("valid", "bipartite", MATRIX_BIP),
+    "d{0}.kthlist": ("valid", "dag", KTH_DAG), "f%s{}.cnf": ("valid", "cnf", CNF_TEXT), "100%.kthlist": ("valid", "simple", KTH_SIMPLE),
+    "two words.kthlist": ("valid", "bipartite", KTH_BIP), "open{.gml": ("valid", "simple", GML_SIMPLE),
 }
 for _ext, _text in (("kthlist", KTH_DAG), ("gml", GML_SIMPLE), ("dot", DOT_SIMPLE), ("dimacs", DIMACS_GRAPH),
                     ("matrix", MATRIX_BIP), ("cnf", CNF_TEXT)):
@@ -1332,6 +1336,12 @@ def file_commands():
                         continue
                     add(tool, pre + [fmt, "@" + name], name, gtype)
             add(tool, ["dimacs", "@" + name], name, "cnf")
+            if FILES[name][0] == "valid" or name.startswith(("trunc.", "empty.")):
+                # a graph read from a file and then modified
+                add(tool, ["kcolor", "2", "@" + name, "addedges", "1"], name, "simple")
+                add(tool, ["matching", "@" + name, "plantclique", "2", "splitedges", "1"], name, "simple")
+                add(tool, ["php", "@" + name, "plantbiclique", "1", "1", "addedges", "1"], name, "bipartite")
+                add(tool, ["php", "2", "1", "-T", "majcomp", "@" + name, "addedges", "1"], name, "bipartite")
         add("cnfgen", ["-of", "latex", "tseitin", "first", "@" + name], name, "simple")
         add("cnfgen", ["-o", "@out/o2.opb", "stone", "2", "@" + name], name, "dag")
         add("cnfgen", ["iso", "complete", "3", "-e", "@" + name], name, "simple")
@@ -1546,10 +1556,100 @@ def case_terminal(ctx):
                                                                               "stderr_first_line": err.split("\n")[0][:100]})
 
 
+def case_unseekable(ctx):
+    """Real processes whose input file is a path that cannot be rewound: /dev/stdin and /dev/fd/0 fed by a pipe, and a
+    named pipe.  Reading such a source once is all a tool may rely on: the outcome is a complete formula or a clean error."""
+    import subprocess as sp
+    import threading
+    from .. import REPO
+    from ..refmodels import c06_dimacs
+    oc.selfcheck()
+    cnf = "p cnf 3 2\n1 -2 0\n2 3 0\n"
+    dag = "3\n1 : 0\n2 : 1 0\n3 : 1 2 0\n"
+    simple = "c g\n3\n1 : 2 3 0\n2 : 1 0\n3 : 1 0\n"
+    runs = [("cnfgen", ["-q", "dimacs", "SRC"], cnf, 2), ("cnfgen", ["dimacs", "SRC"], cnf, 2), ("cnfgen", ["-q", "-of", "latex", "dimacs", "SRC"], cnf, None),
+            ("pbgen", ["-q", "dimacs", "SRC"], cnf, None), ("cnfgen", ["-q", "dimacs", "SRC", "-T", "xor", "2"], cnf, 8),
+            ("cnfshuffle", ["-q", "-p", "-v", "-c", "-i", "SRC"], cnf, 2), ("kthlist2pebbling", ["-q", "-i", "SRC"], dag, 4),
+            ("cnfgen", ["-q", "peb", "kthlist", "SRC"], dag, 4), ("cnfgen", ["-q", "kcolor", "2", "kthlist", "SRC"], simple, None),
+            ("cnfgen", ["-q", "kcolor", "2", "kthlist", "SRC", "addedges", "0"], simple, None)]
+    scratch = tempfile.mkdtemp(prefix="vmon-c18u-", dir="/tmp")
+    try:
+        for tool, argv0, text, nclauses in runs:
+            for source in ("/dev/stdin", "/dev/fd/0", "fifo"):
+                code = ("import sys; sys.path.insert(0, %r); sys.argv[0] = %r; from cnfgen.clitools.%s import main; main()" % (REPO, tool, tool))
+                env = dict(os.environ)
+                env.pop("PYTHONPATH", None)
+                env["PYTHONPYCACHEPREFIX"] = os.path.join(tempfile.gettempdir(), "vmon-pycache-%d" % os.getuid())
+                env.pop("PYTHONDONTWRITEBYTECODE", None)
+                writer = None
+                if source == "fifo":
+                    path = os.path.join(scratch, "pipe%d" % len(os.listdir(scratch)))
+                    os.mkfifo(path)
+
+                    def feed(path=path, text=text):
+                        try:
+                            fd = os.open(path, os.O_WRONLY)
+                            os.write(fd, text.encode())
+                            os.close(fd)
+                        except OSError:
+                            pass
+                    writer = threading.Thread(target=feed, daemon=True)
+                    writer.start()
+                    src = path
+                else:
+                    src = source
+                argv = [src if t == "SRC" else t for t in argv0]
+                p = sp.Popen([sys.executable, "-c", code] + argv, stdin=sp.PIPE if source != "fifo" else sp.DEVNULL, stdout=sp.PIPE, stderr=sp.PIPE,
+                             env=env, cwd=REPO)
+                try:
+                    out, err = p.communicate(text.encode() if source != "fifo" else None, timeout=60)
+                except sp.TimeoutExpired:
+                    p.kill()
+                    p.communicate()
+                    if writer is not None:
+                        try:        # release a writer still blocked in open()
+                            fd = os.open(src, os.O_RDONLY | os.O_NONBLOCK)
+                            os.close(fd)
+                        except OSError:
+                            pass
+                    ctx.problems.append({"kind": "unseekable-run-timeout", "case": ctx.case, "traceback": "%s %r" % (tool, argv)})
+                    continue
+                out, err = out.decode("utf-8", "replace"), err.decode("utf-8", "replace")
+                ctx.count("unseekable_input_runs")
+                label = "%s %s with %s as the input file" % (tool, " ".join("<src>" if t == src else t for t in argv),
+                                                              "a named pipe" if source == "fifo" else source + " (a pipe)")
+                if oc.TRACEBACK in err:
+                    ctx.violation("%s:unseekable-input:unhandled-exception" % tool, "%s: %r" % (label, err[-300:]))
+                elif p.returncode == 0:
+                    ok, got = False, None
+                    if tool == "pbgen":
+                        ok = out.lstrip().startswith("* #variable=")
+                    elif "latex" in argv:
+                        ok = "\\begin" in out or "\\land" in out or "\\lor" in out or "\\neg" in out or "\\top" in out
+                    else:
+                        try:
+                            nv, cls = c06_dimacs.read(out)
+                            ok, got = True, len(cls)
+                        except Exception:          # noqa: BLE001
+                            ok = False
+                    if not ok:
+                        ctx.violation("%s:unseekable-input:exit-0-without-complete-formula" % tool,
+                                      "%s: exit status 0 but <stdout> holds %r" % (label, out[:120]), stderr=err[:300])
+                    elif nclauses is not None and got != nclauses:
+                        ctx.violation("%s:unseekable-input:another-formula" % tool, "%s: %d clauses, expected %d" % (label, got, nclauses))
+                elif any(l.startswith("p cnf") for l in out.splitlines()):
+                    ctx.violation("%s:unseekable-input:formula-and-failure" % tool, "%s: status %d after writing a formula" % (label, p.returncode))
+                ctx.judged((tool, tuple(argv0), source), nontrivial=p.returncode == 0,
+                           sample={"command": label, "status": p.returncode, "stderr_first_line": err.split("\n")[0][:100]})
+    finally:
+        shutil.rmtree(scratch, ignore_errors=True)
+
+
 def workload(tier, seed):
     quick = tier == "quick"
     step = 150
     yield "terminal", {}
+    yield "unseekable", {}
     yield "witnesses", {}          # first: the minimal command line of a mechanism becomes its replay
     n_grammar, n_mut, n_fil = (2700, 2400, 600) if quick else (33000, 33000, 6000)
     # indices depend on the seed so that another seed is another sample
